@@ -6854,7 +6854,9 @@ func getKeyFromProfileModel(model any) ([]string, error) {
 
 	// get the keys from the struct
 	for i := 0; i < t.NumField(); i++ {
-		keys = append(keys, t.Field(i).Name)
+		if t.Field(i).IsExported() {
+			keys = append(keys, t.Field(i).Name)
+		}
 	}
 
 	return keys, nil
@@ -6871,7 +6873,7 @@ func setTreasureValueToProfileModel(model any, treasure *hydraidepbgo.Treasure) 
 	t := v.Type()
 
 	for i := 0; i < t.NumField(); i++ {
-		if t.Field(i).Name == key {
+		if t.Field(i).Name == key && t.Field(i).IsExported() {
 			// we found the key in the model
 			field := v.Field(i)
 			if err := setProtoTreasureToModel(treasure, field); err != nil {
@@ -7218,6 +7220,11 @@ func convertProfileModelToKeyValuePair(model any, encoding EncodingFormat) ([]*h
 
 		field := t.Field(i)
 		value := v.Field(i)
+
+		if !field.IsExported() {
+			// an unexported field cannot be set again on read: it is not part of the model
+			continue
+		}
 
 		// Parse hydraide tags
 		if tag, ok := field.Tag.Lookup(tagHydrAIDE); ok {
